@@ -630,6 +630,11 @@ func (cs *ConsensusState) addVote(vote *types.Vote, peerID p2p.ID) (bool, error)
 			return false, nil
 		}
 
+		// At the initial height there is no last commit to add to.
+		if cs.LastCommit == nil {
+			return false, nil
+		}
+
 		added, err = cs.LastCommit.AddVote(vote)
 		if !added {
 			return false, err
